@@ -2,7 +2,7 @@
 
 use crate::engine::{fp, replay_entry, CaseInfo, ReplayEntry, Run, Verdict};
 use crate::gen::{arb_choices, arb_pid, arb_ref, arb_value, GenCfg};
-use crate::netbed::{clear_schedule, connected_pair, drain, install_schedule, library_panics_since, node_with_peer, panic_mark, parse_pass_through, run_case, BedErr, PeerConn};
+use crate::netbed::{refused_pair, clear_schedule, connected_pair, drain, install_schedule, library_panics_since, node_with_peer, panic_mark, parse_pass_through, run_case, BedErr, PeerConn};
 use crate::terms::{denote, lift, lift_pid};
 use crate::vfail;
 use edp_client::flags::DistributionFlags;
@@ -39,7 +39,7 @@ pub struct SeqCase {
     pub peer_header: bool,
     pub ops: Vec<SendOp>,
     pub repr: Vec<u8>,
-    /// 0: connected, 1: never connected, 2: closed before the operations
+    /// 0: connected, 1: never connected, 2: closed before the operations, 3: handshake refused (status nok), 4: refused (wrong acknowledgement)
     pub state: u8,
 }
 
@@ -126,6 +126,21 @@ fn seq_run(c: &SeqCase) -> Result<Result<SeqOutcome, String>, BedErr> {
             }
             return Ok(SeqOutcome { results, frames: vec![], leftover: 0 });
         }
+        if c.state == 3 || c.state == 4 {
+            // the handshake was refused (status nok / acknowledgement with a wrong digest): still not connected
+            let (mut conn, mut p) = refused_pair(&bed, our, c.state - 3).await?;
+            let mut results = vec![];
+            for op in &c.ops {
+                results.push(apply(&mut conn, op, &mut pk).await);
+            }
+            let _ = collect_frames(&mut p).await;
+            let leftover = p.deframer.buf.len();
+            let mut frames = vec![];
+            while let Some(f) = p.deframer.next(4) {
+                frames.push(f);
+            }
+            return Ok(SeqOutcome { results, frames, leftover });
+        }
         let theirs = if c.peer_header { u64::MAX } else { u64::MAX & !DistributionFlags::DIST_HDR_ATOM_CACHE.as_u64() };
         let (mut conn, mut p, _) = connected_pair(&bed, our, theirs, Duration::from_secs(5)).await?;
         if c.state == 2 {
@@ -155,7 +170,7 @@ pub fn seq_oracle(c: &SeqCase) -> Verdict {
     if c.state != 0 {
         for (op, r) in c.ops.iter().zip(&out.results) {
             if r.is_ok() {
-                vfail!("operation-succeeds-without-connection", "{:?} returned Ok on a connection that is {}", op, if c.state == 1 { "not connected" } else { "closed" });
+                vfail!("operation-succeeds-without-connection", "{:?} returned Ok on a connection that is {}", op, ["", "not connected", "closed", "refused by the peer (status nok)", "refused (the peer's acknowledgement was wrong)"][c.state as usize % 5]);
             }
         }
         if !out.frames.is_empty() || out.leftover > 0 {
@@ -393,7 +408,7 @@ fn op_strategy() -> impl Strategy<Value = SendOp> {
 }
 
 fn seq_strategy() -> impl Strategy<Value = SeqCase> {
-    (any::<bool>(), prop::bool::weighted(0.7), prop::collection::vec(op_strategy(), 1..8), arb_choices(24), prop_oneof![8 => Just(0u8), 1 => Just(1u8), 1 => Just(2u8)])
+    (any::<bool>(), prop::bool::weighted(0.7), prop::collection::vec(op_strategy(), 1..8), arb_choices(24), prop_oneof![8 => Just(0u8), 1 => Just(1u8), 1 => Just(2u8), 1 => Just(3u8), 1 => Just(4u8)])
         .prop_map(|(header_mode, peer_header, ops, repr, state)| SeqCase { header_mode, peer_header, ops, repr, state })
 }
 
